@@ -362,3 +362,14 @@ Theorem C09_mutual_exclusion_example :
   conforms_tight stats_table [] [Acq currMu W; Rd f_curr; Wr f_curr; Rel currMu W] = false.
 Proof. exact (conj stats_ops_follow_table unlocked_update_rejected). Qed.
 Print Assumptions C09_mutual_exclusion_example.
+
+(** Outside the theorems' domain, recorded because the model follows the code:
+    below hour id = limit + 1 the unsigned [id - limit - 1] wraps and a restart
+    deletes every stored hour. *)
+Theorem C09_small_hour_id_wraps :
+  let s := Stats.run (Stats.init 5 (24 * ms_hour) true) ex_all5 in
+  rep CTotal s = 5 /\ rep CTotal (restart s 5) = 0 /\
+  let s' := Stats.run (Stats.init 26 (24 * ms_hour) true) ex_all5 in
+  rep CTotal (restart s' 26) = 5.
+Proof. exact small_hour_id_wraps. Qed.
+Print Assumptions C09_small_hour_id_wraps.
